@@ -110,6 +110,14 @@ func MakePayload(r *rand.Rand, class string) Payload {
 			}
 		}
 		b = b[:n]
+	case "hugeff": // long runs of 0xFF/0xFE: accumulator-overflow territory for Adler-32 style sums
+		n := 700000 + r.Intn(600000)
+		b = bytes.Repeat([]byte{0xFF}, n)
+		if r.Intn(3) == 0 {
+			for i := 0; i < n; i += 1 + r.Intn(5000) {
+				b[i] = 0xFE
+			}
+		}
 	case "lowentropy":
 		b = make([]byte, 100+r.Intn(8000))
 		for i := range b {
